@@ -289,6 +289,10 @@ func genC01(out *Out, r *Rng, tier string, n int, shard int) {
 		root := g.node(g.sch.Root, 0, r.Bool())
 		p := randomPresentation(r)
 		emitDoc(out, g, root, p, pickDocHasher(r), "mz.doc")
+		if i%5 == 2 {
+			// two facts under one path: rejected, or else nothing may be merged (entries == facts == leaves)
+			emitCollisionDoc(out, g, r, pickDocHasher(r))
+		}
 		for k := 0; k < 6; k++ {
 			emitDataset(out, r, pickDocHasher(r))
 		}
